@@ -145,6 +145,7 @@ class SharedFutureOn final : public SharedFutureBase<V, E> {
  public:
   using Base::Base;
   using Base::Detach;
+  using Base::Subscribe;
   using Base::Then;
 
   SharedFutureOn(detail::SharedCorePtr<V, E> core) noexcept : Base{std::move(core)} {
